@@ -40,7 +40,22 @@ SEEDS = [
 ]
 
 # lists with 10 children and more wherever a pass or a pattern keys on a child number (multi-digit path components)
-WIDE_SEEDS = [
+# Constructs written on several lines whose parts are not listed in source order by the flat AST (the former finding
+# F41: the default values of the plain parameters come after `*args` and the keyword-only parameters).
+MULTILINE_SEEDS = [
+    "def f(a=1,\n      *b,\n      c=2):\n    pass\n",
+    "g = (lambda a=1,\n     *b,\n     c=2: a)\n",
+    "async def f(a, b=(1,\n  2), /, c=3,\n  *, d,\n  e=4,\n  **k):\n    pass\n",
+    "def f(a,\n      b=1,\n      *,\n      c):\n    return (lambda x=a,\n *y: x)\n",
+    "f(k=1,\n  *a)\nf(*a,\n  k=1,\n  **m)\n",
+    "d = {k: v\n     for k in x\n     if k\n     for v in y\n     if v}\ns = {k\n for k in x\n if k}\n",
+    "with (open(a) as b,\n      c as d):\n    pass\n",
+    "class C(A,\n        metaclass=M,\n        k=1):\n    pass\n",
+    "match x:\n    case [a,\n          b] if (a\n    ):\n        pass\n",
+    "x = (a\n     if b\n     else c)\n",
+]
+
+WIDE_SEEDS = MULTILINE_SEEDS + [
     "import " + ", ".join(f"m{j}" for j in range(12)) + "\n",
     "from pkg import (\n" + "".join(f"    n{j} as p{j},\n" for j in range(13)) + ")\n",
     "x = [" + ", ".join(str(j) for j in range(11)) + "]\ny = (" + ", ".join(f"-{j}" for j in range(1, 12)) + ")\n",
